@@ -19,10 +19,10 @@ pub struct Finding {
 }
 
 fn udp_rt(sock: &UdpSocket, dst: SocketAddr, bytes: &[u8], v4: bool, tx: i32) -> Option<RefResponse> {
-    for _ in 0..2 {
+    for _ in 0..4 {
         sock.send_to(bytes, dst).ok()?;
         let t0 = Instant::now();
-        while t0.elapsed() < Duration::from_millis(1500) {
+        while t0.elapsed() < Duration::from_millis(2000) {
             let mut buf = vec![0u8; 70_000];
             if let Ok((n, from)) = sock.recv_from(&mut buf) {
                 if from.port() != dst.port() || n < 8 {
